@@ -137,6 +137,13 @@ def execute(ops, fam, workdir, keys, adaptive=False, popitem_keys=None):
                 res["val"] = tk.of(d.pop(k))
             except KeyError:
                 res["err"] = True
+        elif op == "popd":
+            # the default is an equal object, or (every other time, when the key holds that very value) the stored object
+            # itself -- as with d.pop(k, None) on a key that holds None
+            dflt = value(v, fam)
+            if n % 2 == 0 and k in d and deep_eq(d[k], dflt):
+                dflt = d[k]
+            res["val"] = tk.of(d.pop(k, dflt))
         elif op == "popitem":
             try:
                 kk, vv = d.popitem()
@@ -271,8 +278,10 @@ def random_history(rng, n, keys):
             e.update(op="set", k=k, v=rng.randint(1, 4))
         elif r < 0.30:
             e.update(op="del", k=k)
-        elif r < 0.36:
+        elif r < 0.33:
             e.update(op="pop", k=k)
+        elif r < 0.36:
+            e.update(op="popd", k=k, v=rng.randint(1, 4))
         elif r < 0.41:
             e.update(op="popitem")
         elif r < 0.48:
@@ -302,7 +311,7 @@ def random_history(rng, n, keys):
 
 def compact(events):
     def one(e):
-        if e["op"] in ("set", "setdefault", "mutate"):
+        if e["op"] in ("set", "setdefault", "mutate", "popd"):
             return f"{e['op']}({e['k']},{e['v']})"
         if e["op"] in ("del", "pop"):
             return f"{e['op']}({e['k']})"
@@ -339,11 +348,12 @@ def run(ctx):
         gens = [
             (["a"], 2, ["set", "del", "mutate", "flush", "reload", "reopen", "crash"], 4),
             (["a", "b"], 2, ["update", "pop", "popitem", "clear", "setdefault", "mutate", "reload", "reopen", "crash"], 3),
+            (["a"], 2, ["set", "popd", "reopen", "crash"], 4),
         ]
     else:
         gens = [
             (["a"], 2, ["set", "del", "mutate", "flush", "reload", "reopen", "crash"], 5),
-            (["a", "b"], 2, ["set", "pop", "popitem", "clear", "setdefault", "reopen", "crash"], 4),
+            (["a", "b"], 2, ["set", "pop", "popd", "popitem", "clear", "setdefault", "reopen", "crash"], 4),
             (["a", "b"], 2, ["update", "mutate", "reload", "popitem", "flush", "reopen", "crash"], 4),
         ]
     jobs = {}
@@ -405,7 +415,7 @@ def run(ctx):
                 continue
             body = [e["op"] for e in ops[:-1]]
             nontriv = any(o in ("set", "update", "setdefault") for o in body) and any(
-                o in ("mutate", "flush", "reload", "del", "pop", "popitem", "clear") for o in body)
+                o in ("mutate", "flush", "reload", "del", "pop", "popd", "popitem", "clear") for o in body)
             ctx.case((compact(ops), fam), nontriv)
             traces.append(tr)
             meta.append({"kind": "replay", "expected": exp, "fam": fam})
